@@ -642,7 +642,16 @@ func condSignatures(f *ssa.Function) map[string]int {
 		if class == "" {
 			continue
 		}
-		out[fmt.Sprintf("%s.%s %s %s", owner, fld, class, cv.Value.ExactString())]++
+		cst := cv.Value.ExactString()
+		// for an unsigned value `x <= 0` / `x > 0` is `x == 0` / `x != 0`, and `x < 1` / `x >= 1` likewise
+		if bt, ok := x.Type().Underlying().(*types.Basic); ok && bt.Info()&types.IsUnsigned != 0 {
+			if class == "<=" && cst == "0" {
+				class = "=="
+			} else if class == "<" && cst == "1" {
+				class, cst = "==", "0"
+			}
+		}
+		out[fmt.Sprintf("%s.%s %s %s", owner, fld, class, cst)]++
 	}
 	return out
 }
